@@ -30,7 +30,8 @@ type TxFacts struct {
 	// signed field changed afterwards, and the key offered for verification (in the
 	// signature, or in state) is the signer's.
 	HonestSig bool
-	Fee       *big.Int // stated fee in the stake denom (nil = not a plain stake-denom fee)
+	Fee       *big.Int // stake-denom part of the stated fee (nil = the fee names a denomination nobody holds)
+	FeeDust   *big.Int // second-denomination part of the fee (nil = none)
 	FeeValid  bool     // fee is a valid coin set consisting of the stake denom only (or empty)
 	Amount    *big.Int
 	IsReplayOf bool
@@ -158,6 +159,15 @@ func BuildTx(kr *Keyring, s TxSpec, prior Prior) (f TxFacts) {
 		fee = sdk.Coins{sdk.Coin{Denom: denom, Amount: sdk.NewInt(f.BaseFee)}}
 		f.Fee = big.NewInt(f.BaseFee)
 		f.FeeValid = true
+	}
+	if s.FeeDust > 0 {
+		// an extra coin of the second denomination; coin sets are sorted by denomination
+		fee = append(sdk.Coins{sdk.Coin{Denom: DustDenom, Amount: sdk.NewInt(s.FeeDust)}}, fee...)
+		f.FeeDust = big.NewInt(s.FeeDust)
+		f.FeeValid = true
+		if f.Fee == nil {
+			f.Fee = big.NewInt(0)
+		}
 	}
 	chain := s.ChainID
 	if chain == "" {
